@@ -190,8 +190,10 @@ class Module:
         canonicalise_conditions(self.tree)
         desugar_map_filter(self.tree)
         desugar_fstrings(self.tree)
+        self.factory_aliases = inline_factory_aliases(self.tree)
         canonicalise_call_style(self.tree)
         inline_adjacent_conditions(self.tree)
+        self.temporaries_inlined = inline_single_use_temporaries(self.tree)
         normalise_idioms(self.tree)
         inline_expression_closures(self.tree)
         inline_straightline_closures(self.tree)
@@ -1521,6 +1523,262 @@ def inline_adjacent_conditions(tree):
     ast.fix_missing_locations(tree)
 
 
+def inline_factory_aliases(tree):
+    """`peek_command = make_read_peek(read_command)` -- a name bound exactly once (at module level, or by a top-level
+    statement of a function) to the application of a *closure factory* (a module-level function whose body only defines
+    a nested function and returns it) to module-level functions is replaced by that application where it is read: each
+    application yields an equivalent closure, so naming it is invisible."""
+    import copy
+    funcs = {st.name: st for st in tree.body if isinstance(st, ast.FunctionDef)}
+    factories = set()
+    for nm, st in funcs.items():
+        body = [b for b in st.body if not (isinstance(b, ast.Expr) and isinstance(b.value, ast.Constant))]
+        if len(body) >= 2 and all(isinstance(b, ast.FunctionDef) for b in body[:-1]) and isinstance(body[-1], ast.Return) \
+                and isinstance(body[-1].value, ast.Name) and body[-1].value.id in {b.name for b in body[:-1]} \
+                and not st.args.vararg and not st.args.kwarg:
+            factories.add(nm)
+    if not factories:
+        return 0
+    module_stores = {}
+    for n in ast.walk(tree):
+        if isinstance(n, ast.Name) and isinstance(n.ctx, (ast.Store, ast.Del)):
+            module_stores[n.id] = module_stores.get(n.id, 0) + 1
+        elif isinstance(n, (ast.FunctionDef, ast.ClassDef)):
+            module_stores[n.name] = module_stores.get(n.name, 0) + 1
+        elif isinstance(n, ast.arg):
+            module_stores[n.arg] = module_stores.get(n.arg, 0) + 1
+        elif isinstance(n, ast.alias):
+            module_stores[(n.asname or n.name).split('.')[0]] = module_stores.get((n.asname or n.name).split('.')[0], 0) + 1
+
+    def application(v):
+        return isinstance(v, ast.Call) and isinstance(v.func, ast.Name) and v.func.id in factories and not v.keywords \
+            and v.args and all(isinstance(a, ast.Name) and a.id in funcs and module_stores.get(a.id, 0) == 1 for a in v.args) \
+            and module_stores.get(v.func.id, 0) == 1
+    count = 0
+
+    def substitute(scope_stmts, owner, name, value, skip):
+        class Sub(ast.NodeTransformer):
+            def visit_Name(self, n):
+                if isinstance(n.ctx, ast.Load) and n.id == name:
+                    return ast.copy_location(copy.deepcopy(value), n)
+                return n
+        for st in scope_stmts:
+            if st is skip:
+                continue
+            Sub().visit(st)
+    # module level: the name is bound once in the whole module
+    for st in list(tree.body):
+        if isinstance(st, ast.Assign) and len(st.targets) == 1 and isinstance(st.targets[0], ast.Name) and application(st.value) \
+                and module_stores.get(st.targets[0].id, 0) == 1 and not st.targets[0].id.startswith('__'):
+            substitute(tree.body, tree, st.targets[0].id, st.value, st)
+            tree.body.remove(st)
+            count += 1
+    # function level
+    for fn in ast.walk(tree):
+        if not isinstance(fn, ast.FunctionDef):
+            continue
+        stores = {}
+        for n in ast.walk(fn):
+            if isinstance(n, ast.Name) and isinstance(n.ctx, (ast.Store, ast.Del)):
+                stores[n.id] = stores.get(n.id, 0) + 1
+            elif isinstance(n, ast.arg):
+                stores[n.arg] = stores.get(n.arg, 0) + 1
+            elif isinstance(n, (ast.Global, ast.Nonlocal)):
+                for g in n.names:
+                    stores[g] = stores.get(g, 0) + 2
+        for st in list(fn.body):
+            if isinstance(st, ast.Assign) and len(st.targets) == 1 and isinstance(st.targets[0], ast.Name) and application(st.value) \
+                    and stores.get(st.targets[0].id, 0) == 1 \
+                    and not any(stores.get(a.id, 0) for a in st.value.args) and not stores.get(st.value.func.id, 0):
+                after = fn.body[fn.body.index(st) + 1:]
+                substitute(after, fn, st.targets[0].id, st.value, st)
+                fn.body.remove(st)
+                count += 1
+    if count:
+        ast.fix_missing_locations(tree)
+    return count
+
+
+def _evaluated_before(expr, target):
+    """the sub-expressions of `expr` that are evaluated before the node `target` is, as a list of leaf nodes
+    (names, constants, attribute/subscript/call nodes in evaluation order); None when `target` sits where it is
+    evaluated lazily, repeatedly or not at all (right operand of and/or, branch of a conditional expression, inside a
+    lambda or the element/condition of a comprehension)"""
+    before = []
+
+    def go(e):
+        """-> True when target was found (stop), False when e was evaluated completely, None when unsafe"""
+        if e is target:
+            return True
+        if isinstance(e, (ast.Name, ast.Constant)):
+            before.append(e)
+            return False
+        if isinstance(e, ast.BoolOp):
+            r = go(e.values[0])
+            if r is not False:
+                return r
+            return None if any(x is target for v in e.values[1:] for x in ast.walk(v)) else _rest(e.values[1:])
+        if isinstance(e, ast.IfExp):
+            r = go(e.test)
+            if r is not False:
+                return r
+            return None if any(x is target for v in (e.body, e.orelse) for x in ast.walk(v)) else _rest([e.body, e.orelse])
+        if isinstance(e, (ast.ListComp, ast.SetComp, ast.GeneratorExp, ast.DictComp)):
+            r = go(e.generators[0].iter)
+            if r is not False:
+                return r
+            return None if any(x is target for x in ast.walk(e)) else _rest([e])
+        if isinstance(e, ast.Lambda):
+            return None if any(x is target for x in ast.walk(e)) else False
+        if isinstance(e, ast.Call):
+            order = [e.func] + list(e.args) + [k.value for k in e.keywords]
+        elif isinstance(e, ast.Attribute):
+            order = [e.value]
+        elif isinstance(e, ast.Subscript):
+            order = [e.value, e.slice]
+        elif isinstance(e, ast.BinOp):
+            order = [e.left, e.right]
+        elif isinstance(e, ast.UnaryOp):
+            order = [e.operand]
+        elif isinstance(e, ast.Compare):
+            if any(x is target for c in e.comparators[1:] for x in ast.walk(c)):
+                return None             # chained comparisons short-circuit
+            order = [e.left] + list(e.comparators)
+        elif isinstance(e, (ast.Tuple, ast.List, ast.Set)):
+            order = list(e.elts)
+        elif isinstance(e, ast.Starred):
+            order = [e.value]
+        elif isinstance(e, ast.Dict):
+            order = [x for kv in zip(e.keys, e.values) for x in kv if x is not None]
+        elif isinstance(e, ast.Slice):
+            order = [x for x in (e.lower, e.upper, e.step) if x is not None]
+        elif isinstance(e, ast.JoinedStr):
+            order = list(e.values)
+        elif isinstance(e, ast.FormattedValue):
+            order = [e.value]
+        else:
+            return None if any(x is target for x in ast.walk(e)) else _rest([e])
+        for sub in order:
+            r = go(sub)
+            if r is not False:
+                return r
+        before.append(e)
+        return False
+
+    def _rest(nodes):
+        before.extend(nodes)
+        return False
+
+    r = go(expr)
+    return before if r is True else None
+
+
+def inline_single_use_temporaries(tree):
+    """`t = <expr>` immediately followed by a simple statement that reads t exactly once, with t mentioned nowhere else
+    in the function, is that statement with <expr> written in place of t -- provided nothing that could observe or
+    disturb the evaluation of <expr> is evaluated before the read: only names, constants and attribute chains rooted
+    in names the function does not bind (`itertools.chain`) may precede it (anything pure when <expr> is pure too).
+    `matches = list(self.find_all(...)); return len(matches)`  ==  `return len(list(self.find_all(...)))`."""
+    import copy
+    changed = [0]
+    for fn in ast.walk(tree):
+        if not isinstance(fn, ast.FunctionDef):
+            continue
+        declared = {nm for n in ast.walk(fn) if isinstance(n, (ast.Global, ast.Nonlocal)) for nm in n.names}
+        bound = {a.arg for a in fn.args.args + fn.args.kwonlyargs + fn.args.posonlyargs}
+        if fn.args.vararg:
+            bound.add(fn.args.vararg.arg)
+        if fn.args.kwarg:
+            bound.add(fn.args.kwarg.arg)
+        for n in ast.walk(fn):
+            if isinstance(n, ast.Name) and isinstance(n.ctx, (ast.Store, ast.Del)):
+                bound.add(n.id)
+            elif isinstance(n, (ast.FunctionDef, ast.ClassDef)) and n is not fn:
+                bound.add(n.name)
+            elif isinstance(n, ast.arg):
+                bound.add(n.arg)
+
+        def harmless(e, pure_value):
+            if isinstance(e, (ast.Name, ast.Constant)):
+                return True
+            if isinstance(e, ast.Attribute):
+                root = e
+                while isinstance(root, ast.Attribute):
+                    root = root.value
+                if isinstance(root, ast.Name) and root.id not in bound:
+                    return True
+            return pure_value and _pure_expr(e)
+
+        def fix(stmts):
+            again = True
+            while again:
+                again = False
+                uses = {}
+                for n in ast.walk(fn):
+                    if isinstance(n, ast.Name):
+                        uses[n.id] = uses.get(n.id, 0) + 1
+                for i in range(len(stmts) - 1):
+                    st, nxt = stmts[i], stmts[i + 1]
+                    if not (isinstance(st, ast.Assign) and len(st.targets) == 1 and isinstance(st.targets[0], ast.Name)):
+                        continue
+                    nm = st.targets[0].id
+                    if uses.get(nm, 0) != 2 or nm in declared:
+                        continue
+                    if any(isinstance(x, (ast.Lambda, ast.Yield, ast.YieldFrom, ast.Await, ast.NamedExpr)) for x in ast.walk(st.value)):
+                        continue
+                    if isinstance(nxt, (ast.Return, ast.Expr)) and nxt.value is not None:
+                        holder, e = 'value', nxt.value
+                    elif isinstance(nxt, ast.Assign) and all(isinstance(t, (ast.Name, ast.Tuple)) for t in nxt.targets):
+                        holder, e = 'value', nxt.value
+                    elif isinstance(nxt, (ast.If, ast.Assert)):
+                        holder, e = 'test', nxt.test
+                    elif isinstance(nxt, ast.For):
+                        holder, e = 'iter', nxt.iter
+                    else:
+                        continue
+                    if isinstance(e, (ast.Yield,)) and e.value is not None:
+                        inner_holder, inner = e, e.value
+                    else:
+                        inner_holder, inner = None, e
+                    hits = [x for x in ast.walk(inner) if isinstance(x, ast.Name) and x.id == nm and isinstance(x.ctx, ast.Load)]
+                    if len(hits) != 1:
+                        continue
+                    if any(isinstance(x, (ast.Yield, ast.YieldFrom, ast.Await)) for x in ast.walk(inner)):
+                        continue
+                    before = _evaluated_before(inner, hits[0])
+                    if before is None:
+                        continue
+                    pv = _pure_expr(st.value)
+                    if not all(harmless(b, pv) for b in before):
+                        continue
+                    hit = hits[0]
+
+                    class S(ast.NodeTransformer):
+                        def visit_Name(self, m):
+                            if m is hit:
+                                return ast.copy_location(copy.deepcopy(st.value), m)
+                            return m
+                    newinner = S().visit(inner)
+                    if inner_holder is not None:
+                        inner_holder.value = newinner
+                    else:
+                        setattr(nxt, holder, newinner)
+                    del stmts[i]
+                    changed[0] += 1
+                    again = True
+                    break
+            for st in stmts:
+                for fld in ('body', 'orelse', 'finalbody'):
+                    sub = getattr(st, fld, None)
+                    if isinstance(sub, list) and sub and isinstance(sub[0], ast.stmt) and not isinstance(st, (ast.FunctionDef, ast.ClassDef)):
+                        fix(sub)
+                for h in getattr(st, 'handlers', []) or []:
+                    fix(h.body)
+        fix(fn.body)
+    ast.fix_missing_locations(tree)
+    return changed[0]
+
+
 def canonicalise_call_style(tree):
     """Whether an argument is passed by position or by keyword does not matter; the package passes required
     parameters by position and optional ones (those with a default) by keyword.  Calls of module-level functions of
@@ -2052,9 +2310,15 @@ def inline_expression_helpers(tree):
                 # not self-recursive
                 if any(isinstance(x, ast.Name) and x.id == st.name for x in ast.walk(expr)):
                     continue
-                # only boolean/comparison style wrappers (conditions): keeps the transformation obviously safe
+                # boolean/comparison style wrappers (conditions); for functions no rule is anchored in by name also a
+                # single method call on a parameter (`return src.startswith(...)`): with pure simple arguments the
+                # substitution evaluates the same expression in the caller
                 if not isinstance(expr, (ast.BoolOp, ast.Compare, ast.UnaryOp)):
-                    continue
+                    params_ = {x.arg for x in a.args}
+                    if not (st.name not in PINNED_FUNCTION_NAMES and isinstance(expr, ast.Call)
+                            and isinstance(expr.func, ast.Attribute) and isinstance(expr.func.value, ast.Name)
+                            and expr.func.value.id in params_):
+                        continue
                 helpers[st.name] = st
     if not helpers:
         return []
